@@ -534,7 +534,11 @@ macro_rules! common_ops {
             }
             Step::Neg { dst, a, .. } => {
                 let p = need!(*a);
-                set!(*dst, -&p);
+                let r = -&p;
+                if (-p).compress() != r.compress() {
+                    $o.f("neg_variants_disagree", true);
+                }
+                set!(*dst, r);
             }
             Step::Dbl { dst, a, via, .. } => {
                 let p = need!(*a);
@@ -547,6 +551,10 @@ macro_rules! common_ops {
                     v.push(need!(*h));
                 }
                 let r: $P = v.iter().sum();
+                let r2: $P = v.clone().into_iter().sum();
+                if r.compress() != r2.compress() {
+                    $o.f("sum_variants_disagree", true);
+                }
                 set!(*dst, r);
             }
             Step::Sel { dst, a, b, c, via, .. } => {
@@ -555,6 +563,15 @@ macro_rules! common_ops {
                 let r = if *via == 1 {
                     let mut t = p;
                     t.conditional_assign(&q, ch);
+                    t
+                } else if *via == 2 {
+                    let (mut t, mut u) = (p, q);
+                    <$P>::conditional_swap(&mut t, &mut u, ch);
+                    // after the swap the pair is still {p, q}
+                    let other_ok = if *c & 1 == 1 { u.compress() == p.compress() } else { u.compress() == q.compress() };
+                    if !other_ok {
+                        $o.f("swap_lost_operand", true);
+                    }
                     t
                 } else {
                     <$P>::conditional_select(&p, &q, ch)
@@ -662,6 +679,14 @@ macro_rules! common_ops {
                         r
                     }
                 };
+                // second use of the same object: same answer, and the static-only entry point still works
+                if dps.iter().all(|p| p.is_some()) {
+                    let ps: Vec<$P> = dps.iter().map(|p| p.unwrap()).collect();
+                    let again = pre.vartime_mixed_multiscalar_mul(sks.iter(), dks.iter(), ps.iter());
+                    if Some(again.compress()) != r.map(|x| x.compress()) {
+                        $o.f("second_use_differs", true);
+                    }
+                }
                 set_dispatch(0);
                 match r {
                     Some(p) => set!(*dst, p),
